@@ -67,6 +67,7 @@ DtPlus(dt, n) ==
 BinOp(op, a, b, heap, off) ==
     IF ~Concrete(a) \/ ~Concrete(b) THEN [t |-> "skip"]
     ELSE IF op \in {"==", "!=", "<", "<=", ">", ">="} THEN
+        IF HasNonFinite(Extern(a, heap)) \/ HasNonFinite(Extern(b, heap)) THEN [t |-> "skip"] ELSE
         LET c == Compare(a, b, heap) IN
         Bool(CASE op = "==" -> c = 0 [] op = "!=" -> c # 0 [] op = "<" -> c < 0
                [] op = "<=" -> c <= 0 [] op = ">" -> c > 0 [] OTHER -> c >= 0)
